@@ -22,6 +22,7 @@ import (
 	"verif/resp"
 	"verif/rng"
 	"verif/run"
+	"verif/sched"
 	"verif/sconn"
 )
 
@@ -455,7 +456,7 @@ func init() {
 	run.Register(&run.Prop{
 		ID: "C19", Level: "fault_enumeration",
 		Rule: func(tier string) string {
-			return "two parts. (per ending, hook H1, deterministic) endings {EOF at a request boundary, EOF mid-request, reset at a boundary, reset mid-request, QUIT with a request behind it, malformed frame (peer keeps the connection open), write failure on the 1st/2nd/3rd write, write accepting n bytes then failing, rejected certificate (fabricated TLS state under a common-name rule, peer keeps the connection open), server Stop while idle, server Stop while parked in the middle of a request} x 0..4 preceding requests x whole/per-request delivery: the connection loop must return, the scripted socket must have been closed and Server.Conns() must not contain the connection. (churn) a child runs the bundled example server on real plain and TLS listeners; after a warm-up with one connection per ending the idle baseline {goroutines with a frame in redis.(*Server).serve/tlsServe/receive, len(Conns()), len(/proc/self/fd)} is sampled at a fixed point; then N cycles (1000 quick / 10000 thorough per case) with up to 1..32 connections in flight mix FIN, RST, half-close, mid-request, QUIT, malformed, TLS ok+FIN/RST/mid-request, TLS without certificate, TLS garbage, TLS abort after ClientHello, and a client that stops reading a large reply and resets. Verdict on the fixed point after everything is closed: a counter that stays above baseline and unchanged over the whole grace window is a leak; still moving = inconclusive"
+			return "two parts. (per ending, hook H1, deterministic) endings {EOF at a request boundary, EOF mid-request, reset at a boundary, reset mid-request, QUIT with a request behind it, malformed frame (peer keeps the connection open), write failure on the 1st/2nd/3rd write, write accepting n bytes then failing, rejected certificate (fabricated TLS state under a common-name rule, peer keeps the connection open), server Stop while idle, server Stop while parked in the middle of a request} (plus, on real sockets, Stop in the middle of a 16-goroutine connect storm: a connection that still answers after Stop returned or stays registered at a fixed point is a violation) x 0..4 preceding requests x whole/per-request delivery: the connection loop must return, the scripted socket must have been closed and Server.Conns() must not contain the connection. (churn) a child runs the bundled example server on real plain and TLS listeners; after a warm-up with one connection per ending the idle baseline {goroutines with a frame in redis.(*Server).serve/tlsServe/receive, len(Conns()), len(/proc/self/fd)} is sampled at a fixed point; then N cycles (1000 quick / 10000 thorough per case) with up to 1..32 connections in flight mix FIN, RST, half-close, mid-request, QUIT, malformed, TLS ok+FIN/RST/mid-request, TLS without certificate, TLS garbage, TLS abort after ClientHello, and a client that stops reading a large reply and resets. Verdict on the fixed point after everything is closed: a counter that stays above baseline and unchanged over the whole grace window is a leak; still moving = inconclusive"
 		},
 		Exhaustive:  func(string) bool { return false },
 		Assumptions: []string{"stalled TLS handshakes are not part of the churn (they end only with the server's handshake deadline)"},
@@ -471,6 +472,9 @@ func init() {
 			stride := (c19.nEnd + c19.nChurn) / c19.nChurn
 			if idx%stride == 0 && idx/stride < c19.nChurn {
 				return c19churn(idx / stride)
+			}
+			if idx%stride == stride/2 || idx%stride == stride/4 || idx%stride == 3*stride/4 {
+				return c19stopStorm(idx)
 			}
 			return c19ending(idx)
 		},
@@ -500,4 +504,31 @@ func busyServerGoroutines() int {
 		}
 	}
 	return busy
+}
+
+// c19stopStorm: the "server Stop" ending under concurrent connects (real sockets, free-running).
+func c19stopStorm(idx int) run.Result {
+	var res run.Result
+	res.Idx = idx
+	res.Classes = []string{"ending:stop-under-connect-storm"}
+	res.Key = uint64(idx) ^ 0x5707
+	res.NonTrivial = true
+	s := newLcServer([]string{"plain", "both"}[idx%2])
+	if s == nil {
+		res.Inconclusive = "pki unavailable"
+		return res
+	}
+	base, _ := serverGoroutines()
+	ctl := sched.Install()
+	defer func() {
+		ctl.Uninstall()
+		s.srv.Stop()
+		waitGoroutines(base)
+	}()
+	if err := s.srv.Start(); err != nil {
+		res.Inconclusive = "Start failed: " + err.Error()
+		return res
+	}
+	stopStorm(&res, s, ctl, idx, 0, "C19", map[string]any{"ending": "stop-under-connect-storm", "listeners": []string{"plain", "both"}[idx%2]})
+	return res
 }
